@@ -17,6 +17,7 @@ import (
 	"encoding/binary"
 	"fmt"
 	"runtime"
+	"sort"
 	"sync"
 	"testing"
 	"time"
@@ -29,6 +30,8 @@ import (
 	c14sqmeta "github.com/VKCOM/statshouse/internal/vkgo/sqlitev2/checkpoint/gen2/meta"
 	c14vktl "github.com/VKCOM/statshouse/internal/vkgo/vktl/gen/tl"
 	"github.com/VKCOM/statshouse/internal/vkgo/vktl/gen/tlbarsic"
+
+	"github.com/pierrec/lz4"
 
 	"github.com/VKCOM/statshouse/internal/data_model"
 	"github.com/VKCOM/statshouse/internal/data_model/gen2/tlstatshouse"
@@ -260,6 +263,92 @@ func c14Parallel(n int, f func(i int, cnt *c14Counts)) c14Counts {
 	return total
 }
 
+// c14Noise is a fixed xorshift stream (incompressible).
+func c14Noise(n int, seed uint32) []byte {
+	p := make([]byte, n)
+	x := seed
+	for i := range p {
+		x ^= x << 13
+		x ^= x >> 17
+		x ^= x << 5
+		p[i] = byte(x >> 11)
+	}
+	return p
+}
+
+// c14BlockSize is the size of the LZ4 block the library produces for p (measured with the library directly, the same
+// call CompressAndFrame makes).
+func c14BlockSize(p []byte) int {
+	dst := make([]byte, lz4.CompressBlockBound(len(p)))
+	n, err := lz4.CompressBlockHC(p, dst, 0)
+	if err != nil {
+		return -1
+	}
+	return n
+}
+
+type c14BreakEven struct {
+	payload []byte
+	delta   int // block size - payload size
+	shape   string
+}
+
+// c14BreakEvenFamily searches, deterministically, payloads at the compression break-even: block size equal to, one
+// less than and one more than the payload size. Decompress takes "declared size == data length" as stored-raw, so a
+// frame whose LZ4 block is exactly as long as the payload must be stored raw by CompressAndFrame; these are the only
+// payloads on which that boundary is visible. Shapes: incompressible prefix + run of one byte (run 1..64), run +
+// incompressible suffix, incompressible prefix + period-3 pattern, incompressible + copy of its own first bytes.
+func c14BreakEvenFamily(prefixLens []int) (out []c14BreakEven, tried int) {
+	type cand struct {
+		p     []byte
+		shape string
+	}
+	ch := make(chan cand, 256)
+	res := make(chan c14BreakEven, 256)
+	var wg sync.WaitGroup
+	for w := 0; w < runtime.GOMAXPROCS(0); w++ {
+		wg.Add(1)
+		go func() {
+			defer wg.Done()
+			for c := range ch {
+				if d := c14BlockSize(c.p) - len(c.p); d >= -1 && d <= 1 && c14BlockSize(c.p) > 0 {
+					res <- c14BreakEven{c.p, d, c.shape}
+				}
+			}
+		}()
+	}
+	go func() {
+		for _, n := range prefixLens {
+			noise := c14Noise(n, 2463534242+uint32(n))
+			for r := 1; r <= 64; r++ {
+				tried += 4
+				ch <- cand{append(append([]byte{}, noise...), bytes.Repeat([]byte{0x41}, r)...), fmt.Sprintf("noise(%d)+run(%d)", n, r)}
+				ch <- cand{append(bytes.Repeat([]byte{0}, r), noise...), fmt.Sprintf("run(%d)+noise(%d)", r, n)}
+				ch <- cand{append(append([]byte{}, noise...), bytes.Repeat([]byte("xyz"), r)[:r]...), fmt.Sprintf("noise(%d)+period3(%d)", n, r)}
+				if r <= n {
+					ch <- cand{append(append([]byte{}, noise...), noise[:r]...), fmt.Sprintf("noise(%d)+selfcopy(%d)", n, r)}
+				} else {
+					tried--
+				}
+			}
+		}
+		close(ch)
+		wg.Wait()
+		close(res)
+	}()
+	for r := range res {
+		out = append(out, r)
+	}
+	// deterministic order (workers finish in any order)
+	sort.Slice(out, func(i, j int) bool {
+		if out[i].shape != out[j].shape {
+			return out[i].shape < out[j].shape
+		}
+		return out[i].delta < out[j].delta
+	})
+	return out, tried
+}
+
 func c14StructuredPayloads() [][]byte {
 	var out [][]byte
 	// runs and periodic patterns around the LZ4 limits (min match 4, last 5 bytes literal, 12-byte end rule, 15/270 length extensions)
@@ -418,7 +507,7 @@ func c14Primitives(rep *mc.Report) (n int64) {
 
 func TestVerifC14(t *testing.T) {
 	rep := mc.NewReport("C14")
-	rep.Rule = "TL: for every item of the generated factories (statshouse/metadata/engine/api, sqlite checkpoint, fsbinlog; barsic types listed by hand), both the string and the byte-slice variant: the all-default object, then every object FillRandom produces when at most B of its draws (field-mask: none / each single bit / all; size 0..2; scalar classes 0,1,-1,min,max,NaN,Inf; string lengths 0..5,31; union constructor) deviate from the default answer, one of the deviations optionally being the substitution of one string location by one of 34 hostile strings; each value written and read back as TL1 bare, TL1 boxed, TL2 (where generated) and JSON (3 option sets), compared structurally, re-encoded, read with trailing data and into a dirty object; string-variant bytes read by the byte-slice variant must re-encode identically in every form; function results transcoded TL1->JSON->TL1 and TL1->TL2->TL1. basictl strings of every length 0..300 and around 2^16, 254+2^16, 2^24 against a reference layout, every truncation rejected. Frames: every payload up to length L plus structured payloads (runs, periodic, incompressible, mixed, LZ4-lookalike, real buckets): round trip; every truncation of the frame and ~40 size-field values judged against an independent LZ4 block decoder. Non-trivial = value that differs from the all-default object / perturbed frame"
+	rep.Rule = "TL: for every item of the generated factories (statshouse/metadata/engine/api, sqlite checkpoint, fsbinlog; barsic types listed by hand), both the string and the byte-slice variant: the all-default object, then every object FillRandom produces when at most B of its draws (field-mask: none / each single bit / all; size 0..2; scalar classes 0,1,-1,min,max,NaN,Inf; string lengths 0..5,31; union constructor) deviate from the default answer, one of the deviations optionally being the substitution of one string location by one of 34 hostile strings; each value written and read back as TL1 bare, TL1 boxed, TL2 (where generated) and JSON (3 option sets), compared structurally, re-encoded, read with trailing data and into a dirty object; string-variant bytes read by the byte-slice variant must re-encode identically in every form; function results transcoded TL1->JSON->TL1 and TL1->TL2->TL1. basictl strings of every length 0..300 and around 2^16, 254+2^16, 2^24 against a reference layout, every truncation rejected. Frames: every payload up to length L plus structured payloads (runs, periodic, incompressible, mixed, LZ4-lookalike, real buckets) and every payload of a searched two-parameter family whose LZ4 block is exactly as long, one byte shorter or one byte longer than the payload (the stored-raw boundary): round trip; every truncation of the frame and ~40 size-field values judged against an independent LZ4 block decoder. Non-trivial = value that differs from the all-default object / perturbed frame"
 	bound := mc.Pick(1, 2)
 	rep.Bounds["tl_deviation_bound"] = bound
 	rep.Assume("values are those FillRandom can produce plus string substitution; strings longer than 70000 bytes and vectors longer than 2 are outside the bound")
@@ -532,6 +621,32 @@ func TestVerifC14(t *testing.T) {
 	rep.Bounds["frame_payload_reduced_alphabet_max_len"] = maxRed
 	for L := maxAll + 2; L <= maxRed; L++ {
 		enum(red, L)
+	}
+	// break-even family: the stored-raw / compressed boundary of CompressAndFrame
+	be, beTried := c14BreakEvenFamily(mc.Pick([]int{100, 300, 1000, 3000}, []int{20, 50, 100, 200, 300, 500, 700, 1000, 1500, 2000, 3000, 5000, 10000, 30000}))
+	ties := 0
+	for _, b := range be {
+		if b.delta == 0 {
+			ties++
+		}
+	}
+	rep.Bounds["frame_break_even_candidates"] = beTried
+	rep.Bounds["frame_break_even_payloads"] = len(be)
+	rep.Bounds["frame_break_even_exact_ties"] = ties
+	if ties < 3 {
+		rep.Infra(fmt.Sprintf("break-even search found only %d payloads whose LZ4 block is exactly as long as the payload (of %d candidates): the family no longer exercises the stored-raw boundary", ties, beTried))
+	}
+	add(c14Parallel(len(be), func(i int, cnt *c14Counts) {
+		cnt.payloads++
+		before := rep.NumViolations()
+		c14CheckPayload(rep, be[i].payload, len(be[i].payload) <= 1100, false, cnt)
+		rep.Outcome(fmt.Sprintf("breakeven|delta=%d", be[i].delta))
+		if rep.NumViolations() > before {
+			rep.Sample(map[string]any{"break_even_shape": be[i].shape, "block_minus_payload": be[i].delta})
+		}
+	}))
+	if len(be) > 0 {
+		rep.Sample(map[string]any{"break_even_example": be[0].shape, "block_minus_payload": be[0].delta, "payload_len": len(be[0].payload)})
 	}
 	sp := c14StructuredPayloads()
 	rep.Bounds["frame_structured_payloads"] = len(sp)
